@@ -38,6 +38,8 @@ type srvCfg struct {
 	deferPct   int  // % of answers built and written later by another goroutine
 	doubleConn bool // two connections may reach the listener before it is served
 	stallPct   int  // % of synchronous answers whose transport write stalls until resumed
+	largePct   int  // % of requests (hence echoed answers) larger than the 1 KiB pooled write buffer
+	lazyResume bool // stalled writes are resumed reluctantly, so that several pile up
 	force      *srvForce // enumerated fault placement (sweep)
 	hdr        *hdrForce // enumerated request header (C16 sweep)
 }
@@ -378,6 +380,9 @@ func (w *srvWorld) genConn(i int, dialled, late bool) *peerConn {
 		if cfg.bigMsgs && t.Chance(1, 6) {
 			n = 4000 + t.Draw(3000)
 		}
+		if cfg.largePct > 0 && t.Draw(100) < cfg.largePct {
+			n = 1100 + t.Draw(2000)
+		}
 		m.AVPs = []RefAVP{{Code: avpSimOctets, Data: marker(i, k, n, byte(i*16+k))}}
 		if t.Chance(1, 3) {
 			m.AVPs = append(m.AVPs, RefAVP{Code: avpSimU32, Data: u32(uint32(k))})
@@ -687,7 +692,11 @@ func (w *srvWorld) runInner() {
 		}
 		for _, pc := range w.conns {
 			if pc.connected && pc.sc.Stalled() {
-				acts = append(acts, act{kind: "resume-write", pc: pc, w: 3})
+				rw := 3
+				if cfg.lazyResume {
+					rw = 1
+				}
+				acts = append(acts, act{kind: "resume-write", pc: pc, w: rw})
 			}
 		}
 		w.mu.Lock()
@@ -858,6 +867,28 @@ func (w *srvWorld) quiesceAndCheck() bool {
 		if inv.active {
 			held = true
 		}
+	}
+	// a handler that the engine does not hold, writing to a transport that is not stalled,
+	// has no reason to be still running at a quiescent point
+	for _, inv := range w.invs {
+		if !inv.active || inv.conn < 0 || inv.conn >= len(w.conns) {
+			continue
+		}
+		isParked := false
+		for _, p := range w.parked {
+			if p == inv {
+				isParked = true
+			}
+		}
+		if isParked || w.conns[inv.conn].sc.Stalled() || len(w.yielded) > 0 {
+			continue
+		}
+		sig := cfg.prop + "/handler-stuck"
+		if cfg.prop == "C08" {
+			sig = "C08/handler-stuck-behind-other-connection"
+		}
+		e.Fail(sig, "the handler for c%d message %d is still running although nothing holds it on its own connection (its transport is not stalled, the engine has not parked it); %d other handler(s) are blocked elsewhere", inv.conn, inv.seq, len(w.invs))
+		return false
 	}
 	var unhandled []*sentMsg
 	for _, pc := range w.conns {
